@@ -427,7 +427,26 @@ func RunGbnBody(t *testing.T, sc *GbnScenario, body Body) *GbnResult {
 				conns[0], errs[0] = gbn.NewClientConn(ctx, sc.N, sim.sendFunc(0), sim.recvFunc(0), sc.optsFor(0)...)
 				sim.log(Event{EP: 0, Kind: "hs-ret", Err: errStr(errs[0])})
 			}()
-			wg.Wait()
+			// A handshake packet lost for good (say the SYNACK, under a random fault plan that
+			// does not spare the handshake) leaves the server waiting for a SYN for ever while the
+			// client believes it is connected: by design, and outside every property here (they
+			// quantify over faults after a clean handshake). Bound the wait so that such a
+			// scenario ends as "handshake failed" instead of wedging the run.
+			hsDone := make(chan struct{})
+			go func() { wg.Wait(); close(hsDone) }()
+			hsLimit := 10 * time.Minute // virtual
+			if sc.RealTime {
+				hsLimit = 90 * time.Second
+			}
+			select {
+			case <-hsDone:
+			case <-time.After(hsLimit):
+				cancel()
+				<-hsDone
+				if errs[0] == nil && errs[1] == nil {
+					errs[1] = fmt.Errorf("harness: handshake did not complete within %v", hsLimit)
+				}
+			}
 			res.HsErr = [2]string{errStr(errs[0]), errStr(errs[1])}
 			res.Conns = conns
 			if errs[0] == nil && errs[1] == nil {
